@@ -891,6 +891,81 @@ def bounded_builders(ctx) -> Dict[str, Any]:
     return res
 
 
+def whole_graph_case(arg) -> Dict[str, Any]:
+    """Two host threads of one rank, each carrying a properly nested family, loaded from a Kineto file and built by
+    trace_call_graph.CallGraph (the whole-graph passes over the node map that all threads share): parent and depth columns vs the oracle."""
+    import random
+
+    from hv import rt, synth
+
+    seed, tids = arg
+    rng = random.Random(seed)
+    spans = [(a, b) for a in range(8) for b in range(a, 8)]
+    per_thread: Dict[int, List[Tuple[int, int]]] = {}
+    for tid in tids:
+        while True:
+            fam = [rng.choice(spans) for _ in range(rng.randint(2, 6))]
+            if is_laminar(fam):
+                break
+        per_thread[tid] = fam
+    evs: List[Dict[str, Any]] = []
+    slots = [(tid, sp) for tid, fam in per_thread.items() for sp in fam]
+    first = slots[0]
+    rest = slots[1:]
+    rng.shuffle(rest)  # the threads' events are interleaved in the file; a thread's own events keep their relative order
+    order: List[Any] = [first]
+    pos = {tid: 0 for tid in tids}
+    pos[first[0]] = 1
+    for tid, _ in rest:
+        order.append((tid, per_thread[tid][pos[tid]]))
+        pos[tid] += 1
+    for tid, (a, b) in order:
+        evs.append(synth.host_op(f"aten::t{tid}_{a}_{b}", 1000 + 10 * a, 10 * (b - a), tid=tid))
+    if evs[0]["dur"] == 0:
+        evs[0]["dur"], evs[0]["ts"] = 200, 990  # the first event of a Kineto file is a host operator that spans the others of its thread
+        evs[0]["tid"] = max(tids) + 50
+    inp = {"seed": seed, "thread_ids": list(tids), "events": evs}
+    fails: List[Dict[str, Any]] = []
+    with rt.trace_dir({0: evs}) as d:
+        try:
+            from hta.common.trace_call_graph import CallGraph
+
+            t = rt.lib(fails, "parse_traces", inp, rt.load_trace, d, False, use_multiprocessing=False)
+            cg = rt.lib(fails, "CallGraph", inp, CallGraph, t, ranks=[0])
+        except rt.LibFailure:
+            return {"n_checks": 1, "fails": fails, "nontrivial": True}
+        df = cg.trace_data.get_trace(0)
+        n = 0
+        for tid in sorted(set(int(x) for x in df["tid"])):
+            sub = df[df["tid"] == tid]
+            events = [(int(i), int(ts), int(du)) for i, ts, du in zip(sub["index"], sub["ts"], sub["dur"])]
+            if in_known_class_d4(events):
+                continue
+            root = -abs(tid)
+            parent = {int(i): int(p) for i, p in zip(sub["index"], sub["parent"])}
+            depth = {int(i): int(x) for i, x in zip(sub["index"], sub["depth"])}
+            children: Dict[int, List[int]] = {}
+            for i, p_ in parent.items():
+                children.setdefault(p_, []).append(i)
+            n += 1
+            bad = oracle_check(events, parent, depth, children, root)
+            if bad:
+                fails.append({"what": "tree_matches_spec", "input": {**inp, "thread": tid}, "observed": bad[:4],
+                              "expected": "parent = innermost enclosing event of the same thread (thread root -abs(tid) for top-level events); depth = number of ancestors"})
+                break
+    return {"n_checks": n, "fails": fails, "nontrivial": n > 0, "sample": {"seed": seed, "thread_ids": list(tids)}}
+
+
+def bounded_whole_graph(ctx) -> Dict[str, Any]:
+    from hv import rt
+
+    n = 40 if not ctx.thorough else 600
+    tidsets = [(1, 8), (7, 1), (103, 110), (2, 5), (1,), (3, 2, 1)]
+    res = rt.pmap(whole_graph_case, [(ctx.seed * 97 + i, tidsets[i % len(tidsets)]) for i in range(n)], ctx.procs)
+    return rt.summarise(res, f"{PROP}.whole_graph", f"{n} Kineto files with one to three host threads (thread ids 1, 2, 3, 5, 7, 8, 103, 110 in several orders), each thread a random properly nested family of 2-6 spans on an "
+                        "8-point grid, events of the threads interleaved; parsed by Trace.parse_traces and built by trace_call_graph.CallGraph (whole-graph depth / height passes over the shared node map)")
+
+
 def translator_differential(ctx) -> Dict[str, Any]:
     """PyVC's translation of both comparators, evaluated on random concrete endpoints, against CPython running the real functions."""
     import random
@@ -951,6 +1026,8 @@ def _num(x):
 
 
 def replay(ctx, rec: Dict[str, Any]) -> Dict[str, Any]:
+    if ".roots." in rec.get("name", ""):
+        return replay_roots(rec)
     m = rec.get("model") or {}
     evs: Dict[int, Tuple[int, int, int]] = {}
     for pfx in ("p", "q", "r", "a", "b", "e", "z"):
@@ -989,7 +1066,48 @@ def units(ctx) -> List[core.Unit]:
         core.Unit("C03.cs.array", array_vcs_old, [CS + ".CallStackGraph._construct_call_stack_graph"]),
         core.Unit("C03.tcs.add_edge", lambda: add_edge_vcs(TCS, "tcs", True), [TCS + ".CallStackGraph._add_edge"]),
         core.Unit("C03.cs.add_edge", lambda: add_edge_vcs(CS, "cs", False), [CS + ".CallStackGraph._add_edge"]),
+        core.Unit("C03.roots", _roots_vcs, [TCS + ".CallStackGraph._get_all_root_indices", TCS + ".CallStackGraph._compute_depth"]),
     ]
+
+
+def _roots_vcs() -> List[core.VC]:
+    from contracts import C13
+
+    return C13.roots_vcs(PROP)
+
+
+def replay_roots(rec: Dict[str, Any]) -> Dict[str, Any]:
+    """a refuted root-selection obligation, replayed as files whose host threads have the ids the counter-model points at"""
+    m = rec.get("model") or {}
+    cand = []
+    for k in ("parent1", "parent2", "key1", "key2"):
+        try:
+            v = abs(int(str(m.get(k))))
+            if 0 < v < 100000:
+                cand.append(v)
+        except (TypeError, ValueError):
+            pass
+    import contextlib
+    import io
+
+    from hv import rt
+
+    rt.quiet()
+    tried = []
+    with contextlib.redirect_stdout(io.StringIO()):
+        return _replay_roots_files(cand, tried)
+
+
+def _replay_roots_files(cand, tried) -> Dict[str, Any]:
+    for tid in dict.fromkeys(cand + [1]):
+        for other in (tid + 7, max(1, tid - 1) if tid > 1 else tid + 3):
+            for sd in range(6):
+                r = whole_graph_case((sd, (tid, other)))
+                tried.append((tid, other, sd))
+                if r["fails"]:
+                    f0 = r["fails"][0]
+                    return {"confirmed": True, "input": f0["input"], "observed": f0["observed"], "expected": f0["expected"]}
+    return {"confirmed": False, "why": f"no failing file among {len(tried)} two-thread files"}
 
 
 SPEC = Spec(
@@ -999,14 +1117,14 @@ SPEC = Spec(
                (TCS, "CallStackGraph._construct_call_stack_graph"), (TCS, "CallStackGraph._add_edge"),
                (CS, "compare_events"), (CS, "CallStackGraph._construct_call_stack_graph"), (CS, "CallStackGraph._add_edge")],
     units=units,
-    bounded=[Bounded("builders_vs_oracle", bounded_builders), Bounded("translator_differential", translator_differential)],
+    bounded=[Bounded("builders_vs_oracle", bounded_builders), Bounded("whole_graph_vs_oracle", bounded_whole_graph), Bounded("translator_differential", translator_differential)],
     replay=replay,
     trusted=[
         "sorted()/list.sort with cmp_to_key returns a permutation without inversions when `<` derived from the comparator is a strict (weak) order on the elements",
         "bracket lemma L6 (order obligations + push/pop transition => innermost-container tree) is not machine-proved; it is validated by the exhaustive bounded stage on the real builders",
         "construction of the endpoint array (melt/replace/astype/to_numpy; itertuples in the old builder) is covered only by the bounded stage",
     ],
-    assumptions=["timestamps and durations are integers (after inward rounding) in the comparator obligations"],
+    assumptions=["instants and durations are mathematical reals in the obligations; the floating-point rounding of ts + dur is not modelled"],
     explanation="Order obligations of both comparators, the loop bodies and _add_edge of both builders are generated from the AST of /repo and "
                 "discharged by z3; the composition into the tree statement rests on the bracket lemma, validated exhaustively on the real builders "
                 "for all laminar families within the stated scope (bounded, not counted as proved).",
